@@ -128,14 +128,19 @@ def keyEq (F : FloatOps R) : Value R → Value R → Bool
   | .str a, .str b => a == b
   | _, _ => false
 
-def mapLookup (eq : Value R → Value R → Bool) (m : List (Value R × Value R)) (k : Value R) : Option (Value R) :=
+/-- a mapping is an association list; `eq` is the key equality of the language -/
+def mapLookup {α β : Type} (eq : α → α → Bool) (m : List (α × β)) (k : α) : Option β :=
   match m.find? (fun e => eq e.1 k) with
   | some e => some e.2
   | none => none
 
-def mapInsert (eq : Value R → Value R → Bool) : List (Value R × Value R) → Value R → Value R → List (Value R × Value R)
+def mapInsert {α β : Type} (eq : α → α → Bool) : List (α × β) → α → β → List (α × β)
   | [], k, v => [(k, v)]
   | e :: es, k, v => if eq e.1 k then (e.1, v) :: es else e :: mapInsert eq es k v
+
+/-- map_delete -/
+def mapDelete {α β : Type} (eq : α → α → Bool) (m : List (α × β)) (k : α) : List (α × β) :=
+  m.filter (fun e => !eq e.1 k)
 
 /-- composition `a * b`: key k of a maps to b[a[k]]; keys whose value is not a key of b are dropped -/
 def mapCompose (eq : Value R → Value R → Bool) (a b : List (Value R × Value R)) : List (Value R × Value R) :=
